@@ -5,6 +5,7 @@ package main
 import (
 	"fmt"
 	"go/ast"
+	"go/token"
 	"go/types"
 	"runtime/debug"
 	"sort"
@@ -95,6 +96,7 @@ func (vc *VC) verifyBody() {
 	}
 	_ = sig
 	vc.entry = st.clone()
+	vc.assumeEntryLocks(st, fi)
 	// preconditions
 	if fi.Spec != nil {
 		b := vc.bindSpec(fi.Spec, recv, args, nil)
@@ -142,6 +144,7 @@ func (vc *VC) verifyBody() {
 	if exit == nil {
 		return
 	}
+	vc.obligeExitLocks(exit, fi)
 	// vacuity canary: `false` must not be provable at the (reachable) exit
 	vc.canary = &Obligation{Name: fi.Key + "/canary", Func: fi.Key, Kind: "canary", Pos: vc.prog.pos(fi.Decl.Pos()),
 		DeclN: len(vc.decls), TraceN: len(vc.trace), PC: exit.pc, Goal: "false"}
@@ -155,7 +158,7 @@ func (vc *VC) verifyBody() {
 	// ghost effects, then postconditions
 	b := vc.bindSpec(fi.Spec, recv, args, results)
 	vc.frames = append(vc.frames, fr)
-	vc.runEffects(exit, fi.Spec, vc.entry)
+	vc.exitEffects(exit, fi)
 	vc.frames = vc.frames[:0]
 	for _, c := range fi.Spec.Clauses {
 		switch c.Kind {
@@ -366,8 +369,7 @@ func dischargeAll(results []*FuncResult, timeout time.Duration, workdir string, 
 					j.o.Res = SolveResult{Status: "unsat", Solver: "trivial"}
 					continue
 				}
-				q := j.r.vc.query(j.o, true)
-				j.o.Res = solve(q, timeout, workdir, j.o.Name, true)
+				j.o.Res = solveSplit(j.r.vc, j.o, timeout, workdir)
 			}
 		}()
 	}
@@ -376,4 +378,251 @@ func dischargeAll(results []*FuncResult, timeout time.Duration, workdir string, 
 	}
 	close(ch)
 	wg.Wait()
+}
+
+// ---- lock state at function boundaries ---------------------------------------------------------------
+
+type lockExpect struct{ policy, shardW, shardR bool }
+
+func (p *Program) lockExpectation(fi *FuncInfo) lockExpect {
+	var e lockExpect
+	if fi == nil {
+		return e
+	}
+	e.policy = p.policyDomainFunc(fi)
+	if fi.Spec != nil {
+		if fi.Spec.Flags["holds_policy"] {
+			e.policy = true
+		}
+		e.shardW = fi.Spec.Flags["holds_shard"]
+		e.shardR = fi.Spec.Flags["holds_shardR"]
+	}
+	return e
+}
+
+var lockIDs = []string{"Store.policyMu", "RBMutex", "Group.mu"}
+
+// assumeEntryLocks: the locks a function is entered with are fixed by its contract flags
+// (holds_policy / holds_shard / holds_shardR; policy-domain methods hold the policy lock implicitly);
+// every other lock is not held. Call sites are checked against the same expectation.
+func (vc *VC) assumeEntryLocks(st *State, fi *FuncInfo) {
+	e := vc.prog.lockExpectation(fi)
+	b := func(x bool) string {
+		if x {
+			return "true"
+		}
+		return "false"
+	}
+	vc.assume(st, eq(vc.heapGet(st, "anyW<Store.policyMu>", SBool), b(e.policy)))
+	if e.shardR && !e.shardW {
+		// read access suffices: the caller holds the shard lock in either mode
+		vc.assume(st, or(vc.heapGet(st, "anyW<RBMutex>", SBool), vc.heapGet(st, "anyR<RBMutex>", SBool)))
+	} else {
+		vc.assume(st, eq(vc.heapGet(st, "anyW<RBMutex>", SBool), b(e.shardW)))
+		vc.assume(st, eq(vc.heapGet(st, "anyR<RBMutex>", SBool), "false"))
+	}
+	vc.assume(st, eq(vc.heapGet(st, "anyW<Group.mu>", SBool), "false"))
+	srt := ArrSort(SRef, SBool)
+	vc.curLabel = "lockstate"
+	defer func() { vc.curLabel = "" }()
+	if !e.policy {
+		vc.assume(st, fmt.Sprintf("(forall ((m Ref)) (not (select %s m)))", vc.heapGet(st, "lockW<Store.policyMu>", srt)))
+	}
+	if !e.shardW && !e.shardR {
+		vc.assume(st, fmt.Sprintf("(forall ((m Ref)) (not (select %s m)))", vc.heapGet(st, "lockW<RBMutex>", srt)))
+	}
+	if !e.shardR {
+		vc.assume(st, fmt.Sprintf("(forall ((m Ref)) (not (select %s m)))", vc.heapGet(st, "lockR<RBMutex>", srt)))
+	}
+	vc.assume(st, fmt.Sprintf("(forall ((m Ref)) (not (select %s m)))", vc.heapGet(st, "lockW<Group.mu>", srt)))
+}
+
+// obligeExitLocks: every function returns with exactly the locks it was entered with.
+func (vc *VC) obligeExitLocks(exit *State, fi *FuncInfo) {
+	touched := false
+	for _, id := range lockIDs {
+		if vc.written["anyW<"+id+">"] || vc.written["anyR<"+id+">"] {
+			touched = true
+		}
+	}
+	if !touched {
+		return
+	}
+	var cs []string
+	for _, id := range lockIDs {
+		for _, pre := range []string{"anyW<", "anyR<"} {
+			n := pre + id + ">"
+			if vc.written[n] {
+				cs = append(cs, eq(vc.heapGet(exit, n, SBool), vc.heapGet(vc.entry, n, SBool)))
+			}
+		}
+		for _, pre := range []string{"lockW<", "lockR<"} {
+			n := pre + id + ">"
+			if vc.written[n] {
+				cs = append(cs, eq(vc.heapGet(exit, n, ArrSort(SRef, SBool)), vc.heapGet(vc.entry, n, ArrSort(SRef, SBool))))
+			}
+		}
+	}
+	vc.oblige(exit, "lock", "balanced", fi.Decl.End(), and(cs...), "every lock taken is released on every path (and none released that was not taken)")
+}
+
+func isLockHeap(n string) bool {
+	return strings.HasPrefix(n, "lockW<") || strings.HasPrefix(n, "lockR<") || strings.HasPrefix(n, "anyW<") || strings.HasPrefix(n, "anyR<")
+}
+
+// callLockCheck: at a modular call the caller must provide the lock state the callee's VC assumed.
+func (vc *VC) callLockCheck(st *State, callee *FuncInfo, recv Val, pos token.Pos) {
+	if vc.specMode || vc.dry > 0 || callee == nil || callee.Decl == nil || callee.Decl.Body == nil {
+		return
+	}
+	e := vc.prog.lockExpectation(callee)
+	var acq map[string]bool
+	if r, ok := verifyCache[callee.Key]; ok && r.vc != nil {
+		acq = r.vc.acquired
+	}
+	fresh := "false"
+	if r, ok := recv.(*Scalar); ok && r.S == SRef {
+		fresh = vc.freshRef(r.T)
+	}
+	if e.policy {
+		vc.oblige(st, "lock", "policy_call", pos, or(vc.anyHeld(st, "Store.policyMu", false), fresh), "call to "+callee.Key+" requires the policy lock")
+	} else if acq["Store.policyMu"] {
+		vc.oblige(st, "lock", "policy_call", pos, not(vc.anyHeld(st, "Store.policyMu", false)), "call to "+callee.Key+" (which takes the policy lock) while holding it")
+	}
+	if e.shardW {
+		vc.oblige(st, "lock", "shard_call", pos, or(vc.anyHeld(st, "RBMutex", false), fresh), "call to "+callee.Key+" requires a shard write lock")
+	} else if e.shardR {
+		vc.oblige(st, "lock", "shard_call", pos, or(vc.anyHeld(st, "RBMutex", true), fresh), "call to "+callee.Key+" requires a shard lock")
+	} else if acq["RBMutex"] {
+		vc.oblige(st, "lock", "shard_call", pos, not(vc.anyHeld(st, "RBMutex", true)), "call to "+callee.Key+" (which takes a shard lock) while holding one")
+	}
+}
+
+// flattenGoal splits a goal into conjuncts: (and a b) and (=> p (and a b)) are split recursively.
+func flattenGoal(g string) []string {
+	if strings.HasPrefix(g, "(and ") {
+		var out []string
+		for _, c := range splitConj(g) {
+			out = append(out, flattenGoal(c)...)
+		}
+		return out
+	}
+	if strings.HasPrefix(g, "(=> ") {
+		parts := splitConj("(and " + g[4:len(g)-1] + ")")
+		if len(parts) == 2 {
+			sub := flattenGoal(parts[1])
+			if len(sub) > 1 {
+				var out []string
+				for _, c := range sub {
+					out = append(out, "(=> "+parts[0]+" "+c+")")
+				}
+				return out
+			}
+		}
+	}
+	return []string{g}
+}
+
+// solveSplit discharges an obligation conjunct by conjunct (each a separate, smaller query); the
+// obligation is discharged iff every conjunct is.
+func solveSplit(vc *VC, o *Obligation, timeout time.Duration, workdir string) SolveResult {
+	parts := flattenGoal(o.Goal)
+	if len(parts) <= 1 {
+		return solve(vc.query(o, true), timeout, workdir, o.Name, true)
+	}
+	total := SolveResult{Status: "unsat", Solver: "", All: map[string]string{}}
+	used := map[string]bool{}
+	for i, g := range parts {
+		if g == "true" {
+			continue
+		}
+		sub := *o
+		sub.Goal = g
+		r := solve(vc.query(&sub, true), timeout, workdir, fmt.Sprintf("%s.c%d", o.Name, i+1), true)
+		total.TimeS += r.TimeS
+		used[r.Solver] = true
+		total.All[fmt.Sprintf("conjunct%d", i+1)] = r.Status + " " + r.Solver
+		if r.Status != "unsat" {
+			r.All = total.All
+			r.TimeS = total.TimeS
+			r.Output = fmt.Sprintf("; conjunct %d of %d: %s\n", i+1, len(parts), g) + r.Output
+			return r
+		}
+	}
+	total.Solver = strings.Join(sortedKeys(used), "+")
+	return total
+}
+
+// effectTargets: the ghost heaps assigned by the ghost effects of a contract.
+func (vc *VC) effectTargets(si *SpecInfo) []string {
+	set := map[string]bool{}
+	saveInfo := vc.info
+	vc.info = si.Pkg.TypesInfo
+	defer func() { vc.info = saveInfo }()
+	var walk func(s ast.Stmt)
+	walk = func(s ast.Stmt) {
+		switch x := s.(type) {
+		case *ast.ExprStmt:
+			if call, ok := x.X.(*ast.CallExpr); ok && len(call.Args) > 0 {
+				if tgt, ok := call.Args[0].(*ast.CallExpr); ok {
+					if fn, _ := vc.calleeFunc(tgt); fn != nil && hasPfx(fn.Name(), "gh_") {
+						n, _, _, _ := vc.ghostHeap(fn)
+						set[n] = true
+					}
+				}
+			}
+		case *ast.IfStmt:
+			for _, b := range x.Body.List {
+				walk(b)
+			}
+			if eb, ok := x.Else.(*ast.BlockStmt); ok {
+				for _, b := range eb.List {
+					walk(b)
+				}
+			} else if x.Else != nil {
+				walk(x.Else)
+			}
+		}
+	}
+	for _, e := range si.Effects {
+		walk(e)
+	}
+	return sortedKeys(set)
+}
+
+// exitEffects: ghost effects of the contract at function exit. A ghost heap the body has not touched is
+// updated by executing the effects (they define the ghost change). A ghost heap the body has already
+// updated through its callees is instead CHECKED against the effects (obligation `ghost.<heap>`): the
+// effects then specify the net ghost change, and callers apply exactly them.
+func (vc *VC) exitEffects(exit *State, fi *FuncInfo) {
+	si := fi.Spec
+	if len(si.Effects) == 0 {
+		return
+	}
+	targets := vc.effectTargets(si)
+	chk := exit.clone()
+	for _, g := range targets {
+		if e, ok := vc.entry.heap[g]; ok {
+			chk.heap[g] = e
+		} else {
+			delete(chk.heap, g)
+		}
+	}
+	wasWritten := map[string]bool{}
+	for _, g := range targets {
+		wasWritten[g] = vc.written[g]
+	}
+	vc.runEffects(chk, si, vc.entry)
+	for _, g := range targets {
+		srt, ok := vc.heapSort[g]
+		if !ok {
+			continue
+		}
+		if wasWritten[g] {
+			vc.oblige(exit, "ghost", strings.TrimPrefix(g, "gh."), fi.Decl.End(), eq(vc.heapGet(exit, g, srt), vc.heapGet(chk, g, srt)),
+				"the ghost state produced by the body equals the ghost effects declared in the contract")
+		} else {
+			exit.heap[g] = vc.heapGet(chk, g, srt)
+		}
+	}
 }
